@@ -1,3 +1,6 @@
 import Sqljson.Audit
+import Sqljson.Props.C16b
 import Sqljson.Props.C16
 #audit_ns C16 Sqljson.C16
+#audit_ns C16 Sqljson.C16b
+#audit C16 [Sqljson.FloatText.shortest_roundtrips, Sqljson.FloatText.found_wf, Sqljson.FloatText.parse_layoutF]
